@@ -12,6 +12,7 @@ from rules.c14 import Tokenizer
 
 RULES = {
     "R-15.1": "a record type lower-cases the names in its RDATA iff it is listed in RFC 4034 6.2 as amended by RFC 6840 5.1 (dataflow of _to_wire's canonicalize parameter into every embedded Name.to_wire)",
+    "R-15.6": "the zone signer marks 'no name yet' with None and tests it by identity everywhere: the empty name (the apex of a relativized zone) is falsy, so a truth-value test drops the apex from the NSEC chain",
     "R-15.5": "Name.to_wire(canonicalize=True) folds every label it emits, the origin's included: each raw label emission sits on the not-canonicalize side of a `canonicalize` test and every nested to_wire/to_digestable call passes canonicalize on",
     "R-15.2": "canonical forms are uncompressed: to_digestable reaches _to_wire with compress=None and no codec manufactures a compression table",
     "R-15.3": "RRSIG signing input, DS digest input, NSEC3 hash and ZONEMD digest are composed as RFC 4034 3.1.8.1 / 5.1.4, RFC 5155 5, RFC 8976 3.3 prescribe",
@@ -273,7 +274,7 @@ def run(model, rep, tier):
         rep.check("if last_secure is not None: _txn_add_nsec(txn, last_secure, name, zone.rdclass, rrsig_ttl, rrset_signer) last_secure = name" in t, "R-15.4", sz.qualname, where(sz, loops[0]),
                   "each secure name gets an NSEC pointing to the next secure name", "NSEC linking changed", stmt="linking")
     t = " ".join(src(szn).split())
-    rep.check("if last_secure: _txn_add_nsec(txn, last_secure, zone.origin, zone.rdclass, rrsig_ttl, rrset_signer)" in t, "R-15.4", sz.qualname, where(sz, sz.node),
+    rep.check(pat.has_expr(szn, "_txn_add_nsec(txn, last_secure, zone.origin, ...)"), "R-15.4", sz.qualname, where(sz, sz.node),
               "the last name wraps to the origin", "the chain no longer wraps to the origin", stmt="wrap")
     an = model.func("dns.dnssec._sign_zone_nsec.<locals>._txn_add_nsec")
     ann, _ = pat.canon(an.node, ["__mandatory_types = set([dns.rdatatype.RdataType.RRSIG, dns.rdatatype.RdataType.NSEC])", "__node = txn.get_node(name)", "__types = set([__rdataset.rdtype for __rdataset in __node.rdatasets]) | __mandatory_types",
@@ -296,6 +297,9 @@ def run(model, rep, tier):
         rep.check(not carry and bool(in_loop), "R-15.4", bm.qualname, where(bm, carry[0] if carry else bm.node), f"the window length `{L}` is recomputed from the current type alone (types are sorted, so the last one of a window is its highest)",
                   f"`{src(carry[0])[:50]}` carries the window length over from earlier types: a later window inherits the length of a longer earlier one and the NSEC/NSEC3/CSYNC bitmap gets trailing zero octets "
                   "(forbidden by RFC 4034 4.1.2; the canonical form differs)" if carry else "the window length is not set per type", stmt="window-length")
+    from rules.common import mixed_presence_tests
+    mixed_presence_tests(model, rep, "R-15.6", {"dns.dnssec"}, "a name-or-None marker of the zone signer",
+                         "the empty name, i.e. the apex of a relativized zone, is falsy: a zone with only the apex gets no NSEC at all", 3)
     rep.meta["explanation"] = (
         "Per-type dataflow of the `canonicalize`/`compress` parameters of _to_wire (through super() chains and helper codecs) into every embedded-name encoder call, compared with the "
         "RFC 4034 6.2 / RFC 6840 5.1 table held in the checker; plus ordered composition checks of the RRSIG signing input, DS, NSEC3 and ZONEMD digests and of the NSEC walk. "
@@ -303,6 +307,8 @@ def run(model, rep, tier):
 
 
 WITNESSES = [
+    {"id": "c15-last-secure-truth-tested", "rule": "R-15.6", "file": "dns/dnssec.py", "expect": "fires",
+     "old": "    if last_secure is not None:\n        _txn_add_nsec(\n", "new": "    if last_secure:\n        _txn_add_nsec(\n"},
     {"id": "c15-bitmap-window-length-carried-over", "rule": "R-15.4", "file": "dns/rdtypes/util.py", "expect": "fires",
      "old": "            octets = byte + 1", "new": "            octets = max(octets, byte + 1)"},
     {"id": "c15-origin-labels-not-folded", "rule": "R-15.5", "file": "dns/name.py", "expect": "fires",
